@@ -132,8 +132,9 @@ def _startup(run, s, tier):
 
 
 def _stages(run, s, tier):
-    plans = [("core_maths", 3, [2, 3, 5, 16]), ("core_maths", 2, [3])] if tier == "quick" else \
-        [("core_maths", 3, [2, 3, 4, 5, 7, 8, 16]), ("core_maths", 2, [2, 3, 5]), ("core_maths", 4, [3, 7, 16])]
+    # rank counts: small, more than ten ranks that all own functions (two-digit rank numbers in the partial file names), more ranks than functions
+    plans = [("core_maths", 3, [2, 3, 5, 11, 16]), ("core_maths", 2, [3])] if tier == "quick" else \
+        [("core_maths", 3, [2, 3, 4, 5, 7, 8, 11, 12, 16]), ("core_maths", 2, [2, 3, 5]), ("core_maths", 4, [3, 7, 11, 13, 16])]
     for name, n, Ps in plans:
         L, _ = common.gen_library(run, s, name, n)
         if L is None:
